@@ -122,7 +122,7 @@ pub fn ts(x: u64) -> Timestamp {
 /// values that cannot be stored at all.
 pub fn gen_ts(rng: &mut Rng, existing: Option<u64>, oor: bool) -> u64 {
     const BASE: u64 = 1_700_000_000_000;
-    let w = if existing.is_some() { [26, 16, 16, 12, 18, 10, 2] } else { [0, 0, 0, 25, 50, 22, 3] };
+    let w = if existing.is_some() { [24, 16, 24, 10, 18, 6, 2] } else { [0, 0, 0, 25, 50, 22, 3] };
     let e = existing.unwrap_or(0);
     let t = match rng.weighted(&w) {
         0 => e,
@@ -335,7 +335,7 @@ pub fn run(args: &Args) {
     }
     // Sequences per tier (all shards together); the store is chosen by the global case index so
     // that any `--cases N` subset (valgrind) still covers all five stores.
-    let n = args.budget(16_000, 240_000);
+    let n = args.budget(16_000, 120_000);
     let nops = if args.thorough { 200 } else { 60 };
     for k in 0..n {
         let seed = args.case_seed(k);
